@@ -443,6 +443,17 @@ impl World {
             if c.out.end == 4 { continue; }
             out.push(c); made += 1;
         }
+        // directed: attacker-spliced segment changes -- for the ordered pairs (arrival link type,
+        // departure link type) realizable at the ASes of this topology, a packet of two
+        // 2-hop segments built from AUTHENTIC hop fields of the control plane's segments whose
+        // crossover at AS X uses exactly that pair; injected at X on the arrival interface
+        if out.len() + 4 <= budget {
+            let mut n_x = 0;
+            for c in self.xover_pair_cases(rng, now, sum) {
+                if out.len() >= budget || n_x >= 6 { break; }
+                out.push(c); n_x += 1;
+            }
+        }
         // directed: more than 64 hop fields with CurrHF = 63: the pointer must not wrap (routing.rs guards)
         if out.len() + 2 <= budget && rng.chance(1, 3) {
             let junk = Hop { flags: 0, exp: 63, cin: 1, ceg: 2, mac: [1, 2, 3, 4, 5, 6] };
@@ -679,6 +690,85 @@ impl World {
             };
             let offered = reg.paths(IsdAsn(s), IsdAsn(d), when, &self.real).map(|p| p.len()).unwrap_or(0);
             out.push(JoinCase { tag: self.topo.tag.clone(), src: s, dst: d, cores: cores.clone(), segs, offered });
+        }
+        out
+    }
+}
+
+
+// ------------------------------------------------------------------ spliced segment changes
+/// an authentic hop field of AS `ia`, usable as the hop ending (c: travel direction) a segment
+/// or starting one: the SegID its MAC verifies with, and a neighbouring hop field as filler
+struct OwnedHop { ia: u64, hop: Hop, beta: u16, ts: u32, filler: Hop }
+
+impl World {
+    /// link type of interface `ifid` at AS `x` as the router sees it: 0 core, 1 parent, 2 child, 3 peer
+    fn if_type(&self, x: u64, ifid: u16) -> Option<u8> {
+        for l in &self.topo.links {
+            let ty = if l.a == x && l.aif == ifid { Some(l.ty) } else if l.b == x && l.bif == ifid { Some(match l.ty { 1 => 2, 2 => 1, t => t }) } else { None };
+            // ty: x IS ty OF the other end (0 peer, 1 parent, 2 child, 3 core)
+            if let Some(t) = ty { return Some(match t { 3 => 0, 2 => 1, 1 => 2, _ => 3 }); }
+        }
+        None
+    }
+
+    fn owned_hops(&self, rng: &mut Rng) -> Vec<OwnedHop> {
+        let mut v = vec![];
+        for sc in self.segments(rng, 14) {
+            let mut beta = sc.beta0;
+            let hops: Vec<Hop> = sc.entries.iter().map(|e| Hop { flags: 0, exp: e.hop.0, cin: e.hop.1, ceg: e.hop.2, mac: e.mac }).collect();
+            for (i, e) in sc.entries.iter().enumerate() {
+                let filler = if i + 1 < hops.len() { hops[i + 1].clone() } else if i > 0 { hops[i - 1].clone() } else { hops[i].clone() };
+                v.push(OwnedHop { ia: e.ia, hop: hops[i].clone(), beta, ts: sc.ts, filler: filler.clone() });
+                for p in &e.peers {
+                    // as written, peer entries are MACed over the entry's own beta
+                    v.push(OwnedHop { ia: e.ia, hop: Hop { flags: 0, exp: p.2.0, cin: p.2.1, ceg: p.2.2, mac: p.3 }, beta, ts: sc.ts, filler: filler.clone() });
+                }
+                beta ^= u16::from_be_bytes([e.mac[0], e.mac[1]]);
+            }
+        }
+        v
+    }
+
+    pub fn xover_pair_cases(&self, rng: &mut Rng, now: u32, sum: &mut Summary) -> Vec<Case> {
+        let stock = self.owned_hops(rng);
+        let mut by_pair: std::collections::BTreeMap<(u8, u8), Vec<Pkt>> = Default::default();
+        let names = ["core", "parent", "child", "peer"];
+        for h1 in &stock {
+            for c1 in [true, false] {
+                let t_in = if c1 { h1.hop.cin } else { h1.hop.ceg };
+                if t_in == 0 { continue; }
+                let Some(ty_in) = self.if_type(h1.ia, t_in) else { continue };
+                for h2 in stock.iter().filter(|h| h.ia == h1.ia) {
+                    for c2 in [true, false] {
+                        let t_out = if c2 { h2.hop.ceg } else { h2.hop.cin };
+                        if t_out == 0 { continue; }
+                        let Some(ty_out) = self.if_type(h2.ia, t_out) else { continue };
+                        let e = by_pair.entry((ty_in, ty_out)).or_default();
+                        if e.len() >= 3 { continue; }
+                        let sigma1 = u16::from_be_bytes([h1.hop.mac[0], h1.hop.mac[1]]);
+                        let segid0 = if c1 { h1.beta } else { h1.beta ^ sigma1 };
+                        e.push(Pkt { src: h1.ia, dst: h1.ia, ci: 0, ch: 1, onehop: false, lens: vec![2, 2],
+                            infos: vec![Info { flags: c1 as u8, segid: segid0, ts: h1.ts }, Info { flags: c2 as u8, segid: h2.beta, ts: h2.ts }],
+                            hops: vec![h1.filler.clone(), h1.hop.clone(), h2.hop.clone(), h2.filler.clone()] });
+                    }
+                }
+            }
+        }
+        let mut pairs: Vec<(u8, u8)> = by_pair.keys().cloned().collect();
+        rng.shuffle(&mut pairs);
+        // the invalid core -> core splice first when this topology has one
+        pairs.sort_by_key(|p| if *p == (0, 0) { 0 } else { 1 });
+        let mut out = vec![];
+        for p in pairs {
+            let pk = rng.pick(&by_pair[&p]).clone();
+            let at = pk.src;
+            let h1 = &pk.hops[1];
+            let ifid = if pk.infos[0].flags & 1 == 1 { h1.cin } else { h1.ceg };
+            let what = format!("xover_pair {}->{}", names[p.0 as usize], names[p.1 as usize]);
+            sum.count(&format!("xover.{}_{}", names[p.0 as usize], names[p.1 as usize]));
+            let c = self.case(&self.topo, &self.real, now, at, ifid, pk, 2, what, vec![]);
+            if c.out.end != 4 { out.push(c); }
         }
         out
     }
